@@ -3,11 +3,12 @@ PROP = dict(
     legs=[
         dict(driver="crash", quick=24, thorough=600, shard=12, noshrink=True,
              monitors=["nothing_stranded_after_restart (every remaining row is crawled and deleted in run 2)",
-                       "finished_implies_captured (acknowledged captures of deleted rows are complete records on disk; every deleted row whose URL the origin answers has a response record)",
+                       "finished_implies_captured (acknowledged captures of deleted rows are complete records on disk; every deleted row whose URL the origin answers - 2xx, 3xx, 401/403/404/410/451, 408/429/5xx after the last attempt, half-marked challenge pages: any status the discard policy keeps - has a response record)",
                        "refetched_after_restart (rows not yet pre-processed in run 1)",
                        "refetched_after_restart_even_if_preprocessed",
                        "warc_readable_up_to_last_complete_record",
-                       "row_deleted_only_for_a_seed_whose_tree_is_done (also when the finish falls into a graceful stop)"]),
+                       "row_deleted_only_for_a_seed_whose_tree_is_done (also when the finish falls into a graceful stop)",
+                       "deleted_in_first_run_implies_requested (every row deleted in run 1 - all rows are in scope, also those whose path or query mentions an excluded host - had a request sent for its own URL in run 1)"]),
         # "finished implies captured" at the instant of the finish report (no kill needed): whole real crawls of sites with
         # large bodies; at every fin.finished the WARC files on disk are read (monitor 10)
         dict(driver="pipebodies", quick=10, thorough=400, shard=5, noshrink=True,
@@ -28,7 +29,9 @@ PROP = dict(
                "the complete records, rows are never lost except by deletion of a finished seed, the complete records only grow, and after a "
                "restart every remaining row is FRESH; the pre-fix code is refuted by witnesses. A second model with the durable seen-store "
                "and the per-seed fetch (refining the first) proves 'deleted implies own URL captured or failed for good' seed by seed, exactly "
-               "up to the seen-write-ahead finding, and is replayed on every observed history. Tied to the code by real crawls on the local "
+               "up to the seen-write-ahead finding, and is replayed on every observed history; in the first run of a job (no restart yet) a row is deleted "
+               "only after its own URL was requested, whether the run goes on, is killed or is stopped. Tied to the code by real crawls on the local "
                "queue that are SIGKILLed at every instrumented point x occurrence / at random times / stopped gracefully, whose lq.db and WARC "
-               "files are inspected on disk and which are then restarted on the same job directory.",
+               "files are inspected on disk and which are then restarted on the same job directory; the sites answer seeds with successes, "
+               "redirects, client and server errors, real and half-marked challenge pages, and some rows mention excluded hosts in their path or query.",
 )
